@@ -192,6 +192,16 @@ def compare(ref, oth, s, cfg, viol, tag, pot1, pot_s):
         obs["fastestDeflag"] = d
         if d > hyd_tol:
             fail("hydro", "fastestDeflag", d, hyd_tol)
+            # mechanism: the run whose window is "cut" did not reach a table end (both runs
+            # have the same ranges) -- its matchings just below vJ are template fallbacks /
+            # non-converged solves, whose temperatures make fastestDeflag's root search stop
+            tm = {nm: [t for t in r_.get("top_matchings", []) if "branch" in t]
+                  for nm, r_ in (("reference", ref), ("partner", oth))}
+            first = [t for nm in tm for t in tm[nm] if t["dv"] == 1e-3]
+            if first and any(t["branch"] == "template-fallback" for t in first):
+                viol[-1]["mech"] = "not-covariant:fastestDeflag-from-nonconverged-matching-below-vJ"
+                viol[-1]["msg"] += f" | matchings just below vJ (call-site monitor): {tm}"
+                obs["_fd_from_fallback"] = True
     else:
         # cut by the end of a tabulated range: root of T(v)=Tmax on a flat T(v); its
         # conditioning is C06's subject.  Recorded only (P_margin).
@@ -242,6 +252,9 @@ def compare(ref, oth, s, cfg, viol, tag, pot1, pot_s):
         if (ref["vw"] is None) != (oth["vw"] is None) or ref["solutionType"] != oth["solutionType"]:
             fail("solve", "outcome", 1.0, 0.0,
                  f"({ref['solutionType']}, v={ref['vw']} vs {oth['solutionType']}, v={oth['vw']})")
+            if obs.get("_fd_from_fallback"):
+                # consequence of the different search windows
+                viol[-1]["mech"] = "not-covariant:fastestDeflag-from-nonconverged-matching-below-vJ"
             cands = [max(ref["vMin"], 1e-3), 0.999 * min(ref["vJ"], ref["fastestDeflag"])]
             cands += [r_["vw"] for r_ in (ref, oth) if r_.get("vw") is not None]
             obs["_solve_diverged_at"] = cands
